@@ -122,6 +122,7 @@ pub fn select_menu(thorough: bool, sqlite_only: bool) -> Vec<SelOp> {
     m.push(SelOp::Order(XS::Col("s"), OrderK::Field(vec![V::Str("y".into()), V::Str("x".into())])));
     m.push(SelOp::Order(XS::Col("s"), OrderK::Field(vec![V::Str("x\\".into()), V::Str("it's".into())])));
     m.push(SelOp::Limit(3));
+    m.push(SelOp::Limit(0));
     m.push(SelOp::Offset(1));
     m.push(SelOp::Cte("t3", false, bx(r[0].clone())));
     if !sqlite_only {
@@ -180,8 +181,10 @@ impl Model for SelModel {
         apply_spec(r, op);
         Ok(())
     }
-    fn canon(&self, s: &SelSys, _r: &SelSpec) -> u128 {
-        fp_str(&format!("{:?}", s.q))
+    fn canon(&self, s: &SelSys, r: &SelSpec) -> u128 {
+        // the reference state is hashed in too: a builder call that wrongly leaves the real statement unchanged must not
+        // be merged into the state it started from (over-fine is safe)
+        fp_str(&format!("{:?}#{:?}", s.q, r))
     }
     fn outcome(&self, s: &SelSys, _r: &SelSpec) -> u64 {
         fp_str(&catch(|| s.q.to_string(SqliteQueryBuilder)).unwrap_or_default()) as u64
